@@ -57,6 +57,7 @@ func Run(o *drv.Out) {
 		execdrv.Guard(o, func() { failedTxCase(o, ci, nHeights) })
 	}
 	execdrv.Guard(o, func() { closeOrderCase(o) })
+	execdrv.Guard(o, func() { governanceAfterRejectedProposal(o) })
 	indexVariants := 3
 	if o.Tier == "thorough" || o.Search {
 		indexVariants = 10
@@ -493,6 +494,103 @@ func failedEventsCase(o *drv.Out, variant int) {
 		o.Nontrivial(fmt.Sprintf("%s|%d", o.CurCase(), hi))
 	}
 	o.Sample(o.CurCase() + ": certificate results that emit an order-book-lock event and then fail as the last executed transaction leave no event in the proposal, the block or the next block; the same lock order in succeeding certificate results does")
+}
+
+// governanceAfterRejectedProposal: scenario "governance-block-after-rejected-proposal". A proposal
+// rejected at any stage leaves the node unchanged, including the governance-proposal mode of its two
+// state machines: ValidateProposal puts both into the strict mode of proposal validation (APPROVE_LIST /
+// REJECT_ALL) and must put both back to ACCEPT_ALL however it returns, because a block that +2/3
+// committed is executed in ACCEPT_ALL (HandlePeerBlock -> CommitCertificate). One height per stateless
+// rejection stage (nil block, undecodable block, certificate/block height mismatch, block-hash
+// mismatch, nil results, wrong network id): the proposer builds a block with an approved changeParameter
+// transaction; the approve list is emptied (the replica's local list does not name it); the replica
+// rejects a malformed proposal for that height, its modes are compared, and then it handles the
+// committed block as a peer block, which must commit to the proposer's state.
+func governanceAfterRejectedProposal(o *drv.Out) {
+	o.Case("governance-block-after-rejected-proposal")
+	rng := rand.New(rand.NewSource(64))
+	net := execdrv.ParamNetwork(90, false)
+	defer net.Close()
+	c := execdrv.NewChain(o, net, rng, []int{16, 2})
+	c.CanonErrors = true
+	A, B := c.NewNode("A", 0), c.NewNode("B", 1)
+	stages := []string{"nil-block", "undecodable-block", "certificate-block-height-mismatch", "block-hash-mismatch", "nil-results", "wrong-network-id"}
+	for hi, stage := range stages {
+		h := A.Height()
+		gov := net.ChangeParamTx(net.AcctKeys[1], fsm.ParamSpaceFee, fsm.ParamSendFee, uint64(10000+hi+1), h, h+5, 20000, h)
+		net.ApproveProposals(gov)
+		txs := []node.MixTx{{Kind: "send", Bytes: net.SendTx(net.AcctKeys[0], net.FreshAddr(400+hi), 1000, 30000, h, ""), Expect: true},
+			{Kind: "change-parameter", Bytes: gov, Expect: true}, {Kind: "send", Bytes: net.SendTx(net.AcctKeys[2], net.FreshAddr(450+hi), 1000, 15000, h, ""), Expect: true}}
+		pre := A.StateDigest()
+		p, ok := c.Propose(A, txs, "produce")
+		if !ok {
+			return
+		}
+		c.Hold = true
+		okA := c.Validate(A, p)
+		if okA {
+			c.Commit(A, p, false)
+		}
+		post := A.StateDigest()
+		o.Op(fmt.Sprintf("def %d %s %s %s %s", h, pre, p.ID, post, p.Obs), "def")
+		c.Release()
+		if !okA || p.NTx != 3 {
+			o.Fail("C07:scenario-expectation-differs:governance-block-after-rejected-proposal", fmt.Sprintf("height %d: the proposer accepts its block: %v; %d of 3 transactions included (the approved changeParameter among them)", h, okA, p.NTx), map[string]any{"case": o.CurCase(), "height": h, "block": hex.EncodeToString(p.Block)})
+			return
+		}
+		net.ApproveProposals() // the replica's local list does not name the proposal
+		bad := &lib.QuorumCertificate{Header: p.PropQC.Header, Results: p.PropQC.Results, ResultsHash: p.PropQC.ResultsHash, Block: p.PropQC.Block,
+			BlockHash: p.PropQC.BlockHash, ProposerKey: p.PropQC.ProposerKey, Signature: p.PropQC.Signature}
+		switch stage {
+		case "nil-block":
+			bad.Block = nil
+		case "undecodable-block":
+			bad.Block = []byte{0xff, 0xff, 0xff}
+		case "certificate-block-height-mismatch":
+			v := p.PropQC.Header
+			bad.Header = &lib.View{NetworkId: v.NetworkId, ChainId: v.ChainId, Height: v.Height + 1, RootHeight: v.RootHeight, Round: v.Round, Phase: v.Phase}
+		case "block-hash-mismatch":
+			bad.BlockHash = append([]byte{}, p.PropQC.BlockHash...)
+			bad.BlockHash[0] ^= 1
+		case "nil-results":
+			bad.Results = nil
+		case "wrong-network-id":
+			blk := cloneBlock(p.Block)
+			blk.BlockHeader.NetworkId++
+			bad.Block, _ = lib.Marshal(blk)
+		}
+		before := observe(c, B)
+		_, err := B.Validate(bad, p.RC)
+		o.Count("reject-stage:validate:stateless:" + stage)
+		if err == nil {
+			o.Fail("C07:invalid-block-accepted", fmt.Sprintf("height %d: a proposal with %s validates", h, stage), map[string]any{"case": o.CurCase(), "stage": stage})
+			return
+		}
+		after := observe(c, B)
+		drift := after != before
+		if drift {
+			o.Fail("C07:rejected-block-changed-state:proposal-vote-config",
+				fmt.Sprintf("height %d: a proposal rejected at the stateless stage (%s: %s) left the replica at height %d state %s with governance-proposal mode %q; before: height %d state %s mode %q", h, stage, node.ErrCode(err), after.height, after.state, after.cfg, before.height, before.state, before.cfg),
+				map[string]any{"case": o.CurCase(), "height": h, "stage": stage, "block": hex.EncodeToString(p.Block)})
+		}
+		// the committed block arrives as a peer block (the replica never validated it: commit by replay)
+		got := c.Commit(B, p, false)
+		if want := fmt.Sprintf("ok state=%s obs=%s", post, p.Obs); got != want {
+			o.Fail("C07:rejected-block-changed-state:proposal-vote-config:valid-block-refused",
+				fmt.Sprintf("height %d: after the proposal rejected at the stateless stage (%s) the replica handles the committed block (3 transactions, one of them a changeParameter its local approve list does not name) as %q; expected %q (governance-proposal mode after the rejection: %q)", h, stage, got, want, after.cfg),
+				map[string]any{"case": o.CurCase(), "height": h, "stage": stage, "block": hex.EncodeToString(p.Block), "governance_tx": hex.EncodeToString(gov)})
+			return
+		}
+		if drift {
+			return
+		}
+		o.Nontrivial(fmt.Sprintf("%s|%s", o.CurCase(), stage))
+	}
+	if !execdrv.SameDump(A.StateDump(), B.StateDump()) {
+		o.Fail("C07:rejected-block-changed-state", "full state scans differ after the rejected proposals", map[string]any{"case": o.CurCase()})
+		return
+	}
+	o.Sample("governance-block-after-rejected-proposal: six stateless rejection stages, each followed by a committed block with a changeParameter the replica's approve list does not name: modes unchanged, block committed")
 }
 
 // closeOrderCase: scenario "close-order-instruction-all-or-nothing". The instructions inside the
@@ -1245,10 +1343,11 @@ func corpusOversize(o *drv.Out) {
 type observation struct {
 	height uint64
 	state  string // digest of the full scan of the FSM's working view
+	cfg    string // governance-proposal mode of both state machines (not part of the op line)
 }
 
 func observe(c *execdrv.Chain, nd *node.Node) observation {
-	ob := observation{nd.Height(), nd.StateDigest()}
+	ob := observation{nd.Height(), nd.StateDigest(), nd.VoteConfigs()}
 	c.O.Op(c.Names[nd]+" observe", fmt.Sprintf("height=%d state=%s", ob.height, ob.state))
 	return ob
 }
@@ -1329,7 +1428,10 @@ func rejectCase(o *drv.Out, ci int) {
 				return
 			}
 			after := observe(c, B)
-			if after != before {
+			if after != before && after.height == before.height && after.state == before.state {
+				o.Fail("C07:rejected-block-changed-state:proposal-vote-config", fmt.Sprintf("height %d: a %s rejected at stage %q left the node's governance-proposal mode at %q, before it was %q", h, via, stage, after.cfg, before.cfg),
+					map[string]any{"case": o.CurCase(), "stage": stage, "via": via, "block": hex.EncodeToString(bad.Block)})
+			} else if after != before {
 				o.Fail("C07:rejected-block-changed-state", fmt.Sprintf("height %d: a %s rejected at stage %q left the node at %+v, before it was %+v", h, via, stage, after, before),
 					map[string]any{"case": o.CurCase(), "stage": stage, "via": via, "block": hex.EncodeToString(bad.Block)})
 			}
